@@ -838,6 +838,7 @@ class Engine:
                     # assigning a struct/pointer root forgets its sub-paths
                     # a whole-record assignment copies the known cells of the source record
                     copied = None
+                    selfasg = False
                     if x.op == '=' and rv is TOP and rhs is not None:
                         rs = rhs
                         while rs is not None and rs.k == 'cast' and rs.args:
@@ -845,7 +846,8 @@ class Engine:
                         rp = self.canon(E, rs) if rs is not None and rs.k in ('ref', 'mem', 'idx', 'un') else None
                         if rp and rp != p:
                             copied = {q[len(rp):]: v for q, v in E.store.items() if q.startswith(rp) and q[len(rp):len(rp) + 1] in ('.', '[')}
-                    for q in [q for q in E.store if q != p and q.startswith(p) and q[len(p):len(p) + 1] in '.-[']:
+                        selfasg = bool(rp) and rp == p       # x = x (mx[i] = mx[--n] with i == n): the record keeps its cells
+                    for q in [q for q in E.store if q != p and q.startswith(p) and q[len(p):len(p) + 1] in '.-[' and not selfasg]:
                         del E.store[q]
                     E.set(p, rv)
                     if copied:
